@@ -10,10 +10,10 @@ for mp in sorted(glob.glob(os.path.join(os.path.dirname(__file__), "..", "seeded
     own = m["caught_by"].get(m["property"], {})
     rules = sorted({r.split(" ")[0] for r in own.get("rules", [])})
     others = sorted(k for k, v in m["caught_by"].items() if k != m["property"] and v.get("exit") == 1)
-    rows.append((m["id"], m["property"], ", ".join(m["files"]).replace("src/lerax/", ""), "yes" if m["caught"] else "NO",
+    rows.append((m["id"], m["property"], ", ".join(m["files"]).replace("src/lerax/", ""), "superseded by a repair" if m.get("superseded") else ("yes" if m["caught"] else "NO"),
                  ", ".join(rules) or "-", ", ".join(others) or "-", m.get("history", "")))
 print("| seeded change | property | files | caught by own check | rules that fire | other checks that fire | history |")
 print("|---|---|---|---|---|---|---|")
 for r in rows:
     print("| " + " | ".join(r) + " |")
-print(f"\n{len(rows)} seeded changes, {sum(1 for r in rows if r[3] == 'yes')} caught by the property's own check.")
+print(f"\n{len(rows)} seeded changes, {sum(1 for r in rows if r[3] == 'yes')} caught by the property's own check, {sum(1 for r in rows if r[3].startswith('superseded'))} superseded by a repair of /repo, {sum(1 for r in rows if r[3] == 'NO')} missed.")
